@@ -8,7 +8,7 @@
             SetParams(p) = a governance/consensus parameter change between two blocks.
    hist[1] is an "Init" record (genesis: InitChainer stores the price); every later record carries
    the inputs, the clause of GasPriceFn that applies (cls, lo, hi), tz/sat (target < 1 / the
-   unbounded rule exceeds MaxPrice — they only name the class of a panic) and st = the price
+   unbounded rule exceeds MaxPrice — they only name the class of a panic), big (BigProduct) and st = the price
    the design stores. The driver compares the real stored price with lo..hi (verdict) and with
    st (guidance).                                                                            *)
 EXTENDS GasPriceFn, Sequences, TLC, Json
@@ -48,7 +48,8 @@ EndBlock(u) ==
      /\ hist' = Append(hist,
           [act |-> "EndBlock", used |-> u, last |-> price, maxGas |-> mg, ratio |-> r, comp |-> c, init |-> i,
            cls |-> Cls(price, u, mg, r, i), lo |-> Lo(price, u, mg, r, i), hi |-> Hi(price, u, mg, r, i),
-           tz |-> Undefined(price, u, mg, r), sat |-> Saturates(price, u, mg, r, c, i), st |-> o])
+           tz |-> Undefined(price, u, mg, r), sat |-> Saturates(price, u, mg, r, c, i),
+           big |-> BigProduct(price, u, mg, r), st |-> o])
 
 SetParams(p) ==
   /\ Len(hist) < MaxLen
